@@ -37,6 +37,7 @@ RULE += ' Round 9: later probes whose lowest cluster ids have lost their spikes;
 RULE += " Round 10: non-ASCII labels in per-cluster tables; a first probe spanning more than 2**31 samples; one probe's spike times shifted (same count) between two merges of one Merger; capitalised parameter names in params.py."
 RULE += ' Round 11: an earlier merge of the same probes with 32-bit times and single-precision amplitudes in the output folder; multiples of the identity (another per probe) as whitening matrices; geometry and whitening changed by parts per million between two merges.'
 RULE += ' Round 12: per-cluster table rows in no particular order.'
+RULE += ' Round 13: a non-trivial Kilosort-2 templates_ind.npy in probe folders; a first probe of 2**20 + 700 spikes with ties around its 2**20-th spike.'
 EXHAUSTIVE = {'quick': False, 'thorough': False}
 FLOORS = {'quick': {'evaluations': 950, 'distinct_nontrivial': 400},
           'thorough': {'evaluations': 15000, 'distinct_nontrivial': 6000}}
